@@ -99,6 +99,11 @@ def run_pair(a, b, cfg, fams):
                 r['v'] = U.project(r['v'], ctx)
             r['calls'] = [list(c) for c in calls]
             case['tbm'] = r
+            pcalls, acalls = [], []
+            rp = g(lambda: optree.tree_broadcast_map_with_path(lambda p, x, y: pcalls.append([proj_path(p), ctx.id_of(x), ctx.id_of(y)]) or x, oa, ob, **kw))
+            case['tbm_path'] = {'err': rp['err'], 'calls': pcalls}
+            ra = g(lambda: optree.tree_broadcast_map_with_accessor(lambda a_, x, y: acalls.append([proj_acc(a_), ctx.id_of(x), ctx.id_of(y)]) or x, oa, ob, **kw))
+            case['tbm_acc'] = {'err': ra['err'], 'calls': acalls}
         if 'compose' in fams:
             r = g(lambda: sa.compose(sb))
             if r['err'] == '':
